@@ -1,5 +1,6 @@
 import DoltVerif.Lemmas.JournalLoss
 import DoltVerif.Lemmas.JournalWriter
+import DoltVerif.Lemmas.JournalWindow
 /-!
 C03 — Crash at any point recovers the last acknowledged state without loss.
 
@@ -156,6 +157,16 @@ theorem damage_then_valid_reported (B : Nat) (rs : List Rec) (junk : Bytes) (ra 
   simp only [Bool.false_eq_true, if_false]
   rw [dlc_encode_append B _ x rest hx hxB h40]
   simp [Rec.parsed, kindRoot]
+
+/-- `windowed_dataloss_check`: `possibleDataLossCheck` as implemented — a `2 * journalWriterBuffSize`
+window refilled with `io.ReadFull` after shifting the unprocessed remainder to the front — gives
+the same verdict as the whole-suffix scan `dlc` that `recover` uses, on every byte string, for
+every buffer size of at least 20 bytes (the real one is 5 MiB, `Tie.Journal.buff_size`).  Hence all
+theorems above hold for the loop that exists. -/
+theorem windowed_dataloss_check (B : Nat) (hB : 20 ≤ B) (s : Bytes) : windowedDlc B s = dlc B s false :=
+  windowedDlc_eq_dlc B hB s
+
+example : (20 : Nat) ≤ 5 * 1024 * 1024 := by decide
 
 /-- last root among well-formed records -/
 def lastRootRec : List Rec → Option Bytes
